@@ -25,7 +25,7 @@ if [ "${1:-}" = "--replay" ]; then
     *) exec "$AT"/release/c17 --tier "$TIER" "$@";;
   esac
 fi
-SIDE=/verif/.target/c17p-evidence.json
+SIDE="$AT"/c17p-evidence.json
 rm -f "$SIDE"
 VERIF_EVIDENCE_PATH="$SIDE" VERIF_REPLAY_TAG=parallel-loom "$ST"/release/c17p --tier "$TIER" 2>&1 | grep -v 'not reached in this tier'; rc1=${PIPESTATUS[0]}
 VERIF_MERGE_EVIDENCE="parallel_path_under_loom=$SIDE" "$AT"/release/c17 --tier "$TIER"; rc2=$?
